@@ -19,7 +19,8 @@ ENCODED = [
     'get_properties/set_properties',
     'pico8.music.music.Music.to_lines/from_lines',
     'pico8.game.formatter.p8png.get_pngdata_from_picodata/'
-    'get_picodata_from_pngdata']
+    'get_picodata_from_pngdata',
+    'pico8.game.formatter.p8.P8Formatter.from_file (trimmed sections)']
 ASSUMPTIONS = [
     'ref/p8format.py states the PICO-8 formats correctly (validated against '
     'the PICO-8-written fixtures in tests/testdata by ref/validate.py)',
@@ -186,6 +187,57 @@ def png_pixels(x, p):
     x.out('back', list(back))
 
 
+# --- sections with omitted trailing rows (as PICO-8 writes them) ---------------
+
+from props.p8text import REGION, ORDER, MUSIC_DEFAULT, trimmed_text
+
+
+def trimmed(x, p):
+    """PICO-8 omits trailing default rows when it saves a .p8: a section may
+    hold any number of rows from zero to all.  The loaded regions must still
+    have their full size, the rows present must decode as the format says,
+    the rows omitted must hold the defaults, and saving as .p8.png must put
+    every region at its address."""
+    from pico8.game.formatter.p8 import P8Formatter
+    sec = p['sec']
+    size, rowbytes, _ = REGION[sec]
+    total = size // rowbytes
+    n = x.choice('rows', sorted(set(k for k in (0, 1, 2, 3, total - 1, total)
+                                    if 0 <= k <= total)))
+    others = x.choice('others', ['absent', 'one row', 'full'])
+    counts = {}
+    for s_ in ORDER:
+        tot = REGION[s_][0] // REGION[s_][1]
+        counts[s_] = n if s_ == sec else \
+            {'absent': None, 'one row': 1, 'full': tot}[others]
+    text, row_mem = trimmed_text(counts)
+    g = P8Formatter.from_file(hx.MemStream(text), filename='x.p8')
+    for s_ in ORDER:
+        if s_ not in row_mem:
+            continue
+        sz, rb, default = REGION[s_]
+        data = getattr(g, s_)._data
+        x.check('a region loaded from a trimmed section has its full size',
+                len(data) == sz, info='%s: %d' % (s_, len(data)))
+        if len(data) != sz:
+            continue
+        mems = row_mem[s_]
+        for r, mem in enumerate(mems):
+            x.check('rows present load to their memory bytes',
+                    list(data[r * rb:(r + 1) * rb]) == mem)
+        rest = list(data[len(mems) * rb:])
+        if default == 0:
+            x.check('omitted rows are zero', not any(rest))
+        elif s_ == 'music':
+            x.check('omitted music patterns are the silent default',
+                    rest == MUSIC_DEFAULT * (len(rest) // 4))
+    # the cart memory image picotool would store in a .p8.png
+    image = b''.join(bytes(getattr(g, s_).to_bytes())
+                     for s_ in ('gfx', 'map', 'gff', 'music', 'sfx'))
+    x.check('the memory image is 0x4300 bytes (code starts at 0x4300)',
+            len(image) == 0x4300)
+
+
 from props import C04 as _C04
 
 Q = {'_budget': 200}
@@ -208,6 +260,8 @@ HARNESSES = [
             thorough=[dict(Q, ids=[0, 1, 31, 62, 63], _budget=600)]),
     Harness('music', music, quick=[dict(Q, patterns=2)],
             thorough=[dict(Q, patterns=64)]),
+    Harness('trimmed', trimmed,
+            quick=[dict(Q, sec=s_) for s_ in ORDER]),
     Harness('png_pixels', png_pixels, quick=[dict(Q, w=3, h=2, n=4)],
             thorough=[dict(Q, w=160, h=2, n=250, _budget=600),
                       dict(Q, w=5, h=3, n=15), dict(Q, w=5, h=3, n=0)]),
